@@ -14,11 +14,65 @@ def gen(rng, tier):
             ast = g.gen_filter()
             ctxs = [lg.gen_ctx(rng, sch, p_absent=rng.choice([0.0, 0.2, 0.5])) for _ in range(nctx)]
             out.append(lg.exec_case(sch, ast, ctxs, lg.Layout(rng))[0])
+    out += value_cases(rng, tier)
+    return out
+
+
+def value_cases(rng, tier):
+    """value expressions: the whole result of a call (not just a comparison on it) is compared.
+       (1) concat over every tuple of 2..4 arguments from a pool of present / absent array and byte-string
+           expressions (exhaustive small scope: absent arguments in leading, middle and trailing positions);
+       (2) random calls (nested to depth 3) evaluated as value expressions."""
+    out = []
+    sch = lg.Scheme(lg.RICH_FIELDS, lg.RICH_FNS, [], True)
+    f = sch.field_index
+    concat = [i for i, (n, lib) in enumerate(sch.fns) if lib == "concat"][0]
+    pools = {
+        "abytes": [("field", f("strs")), ("field", f("hdrs"), ("k", b"k1")), ("field", f("hdrs"), ("k", b"missing")),
+                   ("field", f("words"), ("a", 0)), ("field", f("words"), ("a", 7))],
+        "aint": [("field", f("nums")), ("field", f("cube"), ("a", 0), ("a", 0)), ("field", f("cube"), ("a", 9), ("a", 0)),
+                 ("field", f("deep"), ("k", b"a"), ("k", b"b"))],
+        "abool": [("field", f("bools")), ("field", f("grid"), ("a", 0)), ("field", f("grid"), ("a", 9)),
+                  ("field", f("mgrid"), ("k", b"k1")), ("field", f("mgrid"), ("k", b"missing"))],
+        "bytes": [("field", f("str")), ("field", f("ostr")), ("field", f("hdr"), ("k", b"k1")),
+                  ("field", f("hdr"), ("k", b"missing")), ("field", f("strs"), ("a", 0))],
+    }
+    nctx = 3 if tier == "quick" else 8
+    import itertools
+    for name, pool in pools.items():
+        for n in (2, 3, 4):
+            tuples = list(itertools.product(pool, repeat=n))
+            if tier == "quick" and len(tuples) > 150:
+                tuples = rng.sample(tuples, 150)
+            for args in tuples:
+                e = ("call", concat, tuple(("ai", a) for a in args))
+                ctxs = [lg.gen_ctx(rng, sch, p_absent=rng.choice([0.0, 0.3, 0.6])) for _ in range(nctx)]
+                out.append(lg.exec_case(sch, e, ctxs, lg.Layout(rng), kind="exec-value")[0])
+    g = lg.Gen(rng, sch, features=("index", "call", "oneof", "vec", "mapbool"), max_depth=3)
+    n = 600 if tier == "quick" else 10000
+    made = 0
+    tries = 0
+    while made < n and tries < 20 * n:
+        tries += 1
+        c = g.gen_call(0)
+        if not c:
+            continue
+        base, t0 = c
+        idx, t, n_each = g.index_further(t0, False)
+        if n_each:
+            continue
+        e = base + tuple(idx)
+        ctxs = [lg.gen_ctx(rng, sch, p_absent=rng.choice([0.0, 0.2, 0.5])) for _ in range(nctx)]
+        try:
+            out.append(lg.exec_case(sch, e, ctxs, lg.Layout(rng), kind="exec-value")[0])
+            made += 1
+        except Exception:
+            continue
     return out
 
 
 def nontrivial(line):
-    return "(call " in line
+    return "(call " in line or line.startswith("(exec-value")
 
 
 def distribution(lines):
@@ -37,5 +91,7 @@ PROP = {
     "nontrivial": nontrivial,
     "distribution": distribution,
     "rule": "calls to the harness function library nested to depth 3 with field / index-path / literal / nested-call / "
-            "logical arguments, map-each first arguments, optional parameters, concat",
+            "logical arguments, map-each first arguments, optional parameters, concat; value expressions: concat over "
+            "every tuple of 2..4 present/absent array and byte-string arguments (whole result compared), random calls "
+            "evaluated as value expressions",
 }
